@@ -95,6 +95,8 @@ _reg("vec_strand_notdate", Schema("vsn", [C3], [("cat", 0)],
 for _L in (1, 2, 3, 4):
     _reg("e2e_cat_x_date_L%d" % _L, S.schema2("e%d" % _L, G2, date_var(_L)), "e2e", L=_L,
          cfgs=[{}, {"rows": rsub}], weights=(1,), quick=2 if _L < 4 else 1, thorough=3 if _L < 4 else 2)
+G3n = S.cat("g", 3, "last", values=[1, None, 3])
+_reg("e2e_cat3none_x_date_L3", S.schema2("e3n", G3n, date_var(3)), "e2e", L=3, cfgs=[{}], weights=(1,), quick=2, thorough=3)
 _reg("e2e_mr_x_date_L3", S.schema2("em3", M2, date_var(3)), "e2e", L=3, cfgs=[{}], weights=(1,), quick=1, thorough=2)
 _reg("e2e_cat_x_cat_notdate", S.schema2("en", G2, C3), "e2e", L=3, cfgs=[{}], weights=(1,), quick=2, thorough=3,
      notdate=True)
